@@ -1,6 +1,7 @@
 (* Operation handlers of the correspondence suites: parse the arguments, call extracted code, print. *)
 open Model
 open Base
+type string = Stdlib.String.t
 
 (* ---------- S-bdd: operation programs ---------- *)
 let tte_of = function A "t" -> TTrue | A "f" -> TFalse | A "a" -> TAny | _ -> raise (Bad "tte")
@@ -99,3 +100,129 @@ let () = Hashtbl.replace classifiers "run" classify_run
 (* ---------- dispatch ---------- *)
 let table : (string, sx -> string) Hashtbl.t = Hashtbl.create 64
 let () = Hashtbl.replace table "run" op_run
+
+(* ---------- text suites: S-tok, S-parse, S-eval ---------- *)
+(* text ::= list of code points in decimal; code points >= 128 carry the class the real regex crate
+   assigns them: c:w (word, not digit), c:d (digit), c:o (neither) *)
+let text_of (x : sx) : (n -> ucls) * n list =
+  let tbl : (string, ucls) Hashtbl.t = Hashtbl.create 8 in
+  let cps = List.map (fun a ->
+    let s = atom a in
+    match String.index_opt s ':' with
+    | None -> n_of_dec s
+    | Some i ->
+        let c = String.sub s 0 i in
+        let k = match s.[i + 1] with 'w' -> UWord | 'd' -> UDigit | _ -> UOther in
+        Hashtbl.replace tbl c k; n_of_dec c) (list_of x) in
+  let uc (c : n) = match Hashtbl.find_opt tbl (dec_of_n c) with Some k -> k | None -> UOther in
+  (uc, cps)
+
+let name_of_sx (x : sx) : n list = List.map (fun a -> n_of_dec (atom a)) (list_of x)
+let show_name (w : n list) = "(" ^ String.concat " " (List.map dec_of_n w) ^ ")"
+let ordering_of (x : sx) : (n list * nat) list =
+  List.map (function L [nm; id] -> (name_of_sx nm, nat_atom id) | _ -> raise (Bad "ordering")) (list_of x)
+
+let show_token = function
+  | TVar v -> Printf.sprintf "(V %d)" (int_of_nat v)
+  | TNum k -> "(Num " ^ dec_of_n k ^ ")"
+  | TRefT -> "Ref" | TAnd -> "And" | TOr -> "Or" | TNot -> "Not" | TXor -> "Xor" | TNor -> "Nor" | TNand -> "Nand"
+  | TImplies -> "Implies" | TImpliesInv -> "ImpliesInv" | TIff -> "Iff" | TIf -> "If" | TThen -> "Then" | TElse -> "Else"
+  | TExists -> "Exists" | TForall -> "Forall" | TEq -> "Eq" | TGeq -> "Geq" | TGt -> "Gt" | TLt -> "Lt"
+  | TOpenParen -> "OpenParen" | TCloseParen -> "CloseParen" | TOpenSquare -> "OpenSquare" | TCloseSquare -> "CloseSquare"
+  | TComma -> "Comma" | TFalse0 -> "False" | TTrue0 -> "True" | TLFP -> "LFP" | TGFP -> "GFP" | THash -> "Hash" | TEof -> "Eof"
+
+let show_binop = function
+  | BAnd -> "and" | BOr -> "or" | BXor -> "xor" | BNor -> "nor" | BNand -> "nand" | BImplies -> "imp"
+  | BImpliesInv -> "impinv" | BIff -> "iff"
+let show_cop = function AtMost -> "le" | LessThan -> "lt" | AtLeast -> "ge" | MoreThan -> "gt" | Exactly -> "eq"
+let show_ids l = "(" ^ String.concat " " (List.map (fun v -> string_of_int (int_of_nat v)) l) ^ ")"
+let rec show_form buf (f : form) =
+  let add = Buffer.add_string buf in
+  let lst l = add "("; List.iteri (fun i g -> if i > 0 then add " "; show_form buf g) l; add ")" in
+  match f with
+  | FFalse -> add "F" | FTrue -> add "T"
+  | FVar v -> add (Printf.sprintf "(V %d)" (int_of_nat v))
+  | FNot g -> add "(Not "; show_form buf g; add ")"
+  | FQuant (q, vs, g) -> add (match q with QExists -> "(Q ex " | QForall -> "(Q all "); add (show_ids vs); add " "; show_form buf g; add ")"
+  | FCountC (op, fs, k) -> add ("(CC " ^ show_cop op ^ " "); lst fs; add (" " ^ dec_of_n k ^ ")")
+  | FCountV (op, l, r) -> add ("(CV " ^ show_cop op ^ " "); lst l; add " "; lst r; add ")"
+  | FFix (v, init, g) -> add (Printf.sprintf "(Fix %d %d " (int_of_nat v) (if init then 1 else 0)); show_form buf g; add ")"
+  | FIte (c, t, e) -> add "(Ite "; show_form buf c; add " "; show_form buf t; add " "; show_form buf e; add ")"
+  | FBin (op, l, r) -> add ("(Bin " ^ show_binop op ^ " "); show_form buf l; add " "; show_form buf r; add ")"
+  | FSub b -> add "(Sub "; show_bdd buf b; add ")"
+  | FRef -> add "(Ref)"
+let form_str f = let buf = Buffer.create 64 in show_form buf f; Buffer.contents buf
+
+let eval_fuel = nat_of_int 700
+
+(* tok (ordering) (text) *)
+let op_tok (args : sx) : string =
+  match args with
+  | L [ord; txt] ->
+      let (uc, cps) = text_of txt in
+      (match tokenize uc (ordering_of ord) cps with
+       | None -> "(err)"
+       | Some ts ->
+           "(ok (" ^ String.concat " " (List.map show_token ts) ^ ") ("
+           ^ String.concat " " (List.map show_name (ident_names (lex_raw uc cps))) ^ "))")
+  | _ -> raise (Bad "tok")
+
+(* parse (text) : the syntax tree, variables by id *)
+let op_parse (args : sx) : string =
+  match args with
+  | L [txt] ->
+      let (uc, cps) = text_of txt in
+      (match tokenize uc [] cps with
+       | None -> "(err)"
+       | Some ts -> (match parse ts with Ok (f, _) -> "(ok " ^ form_str f ^ ")" | _ -> "(err)"))
+  | _ -> raise (Bad "parse")
+
+(* eval (ordering) (text) : result diagram, vars, free_vars *)
+let op_eval (args : sx) : string =
+  match args with
+  | L [ord; txt] ->
+      let (uc, cps) = text_of txt in
+      (match parsed_formula uc (ordering_of ord) cps with
+       | Done p ->
+           (match eval_f eval_fuel p.pf_form with
+            | Some b -> "(ok " ^ bdd_str b ^ " " ^ show_ids p.pf_vars ^ " " ^ show_ids p.pf_free ^ ")"
+            | None -> "(diverge)")
+       | _ -> "(err)")
+  | _ -> raise (Bad "eval")
+
+let () =
+  Hashtbl.replace table "tok" op_tok;
+  Hashtbl.replace table "parse" op_parse;
+  Hashtbl.replace table "eval" op_eval
+
+(* verdicts for the text suites *)
+let classify_tok (_ : sx) (real : string) (_ : string) : string =
+  if real = "(panic)" then "panic" else "lex"
+let classify_parse (_ : sx) (real : string) (_ : string) : string =
+  if real = "(panic)" then "panic" else "grammar"
+let ids_of (x : sx) : nat list = List.map nat_atom (list_of x)
+let classify_eval (args : sx) (real : string) (model : string) : string =
+  if real = "(panic)" then "panic"
+  else
+    let parse_res s = match (try Some (parse_sx s) with Bad _ -> None) with
+      | Some (L [A "ok"; b; vars; free]) -> `Ok (bdd_raw b, ids_of vars, ids_of free)
+      | Some (L [A "err"]) -> `Err
+      | Some (L [A "diverge"]) -> `Div
+      | _ -> `Other in
+    match parse_res real, parse_res model with
+    | `Ok (r, rv, rf), `Ok (m, mv, mf) ->
+        let parts = ref [] in
+        if not (robddb r) then parts := "shape" :: !parts;
+        (match find_diff r m with Some w -> parts := ("sem " ^ show_alist w) :: !parts | None -> ());
+        if rv <> mv then parts := "vars" :: !parts;
+        if rf <> mf then parts := "free" :: !parts;
+        if not (List.for_all (fun v -> List.mem v rf) (support r)) then parts := "leak" :: !parts;
+        if !parts = [] then "holds" else String.concat " " (List.rev !parts)
+    | `Err, `Ok _ | `Ok _, `Err -> "accept"
+    | `Div, `Ok _ -> "no-result"
+    | `Ok _, `Div -> "model-diverges"
+    | _ -> "unclassified"
+let () =
+  Hashtbl.replace classifiers "tok" classify_tok;
+  Hashtbl.replace classifiers "parse" classify_parse;
+  Hashtbl.replace classifiers "eval" classify_eval
